@@ -827,6 +827,31 @@ Proof.
   - intros c H. unfold Select.select_core. rewrite H. simpl. rewrite (is_order _ _ (init_ok _ _ H)). reflexivity.
 Qed.
 
+(* selection by target file name is by the EXACT declared string.  In any state (ph, tb1) of the loop of
+   _filter_tasks, for an element f that is not the name of a task:
+   (1) f is a string some task p of the loaded list declares in `targets`  ->  the element stands for p, nothing
+       is added to the table;
+   (2) f is no declared target string of any task (e.g. another spelling of the same path: names are opaque,
+       two spellings are two names)  ->  the targets dict plays no part: the element is treated exactly as if
+       no task had any target (rejected, unless a delayed creator accounts for it). *)
+Theorem target_lookup_exact auto tb c ph tb1 f :
+  init tb = inr c -> has tb1 f = false ->
+  (forall p, (exists t, lookup tb p = Some t /\ In f (s_targets t)) ->
+     filter_list auto (c_targets c) ph tb1 [f] = inr (ph, tb1, [p])) /\
+  ((forall u t, lookup tb u = Some t -> ~ In f (s_targets t)) ->
+     tg_get (c_targets c) f = None /\
+     filter_list auto (c_targets c) ph tb1 [f] = filter_list auto [] ph tb1 [f]).
+Proof.
+  intros Hi Hf. split.
+  - intros p Hp. apply (targets_exact tb c f p Hi) in Hp.
+    cbn [Select.filter_list]. unfold Select.filter_one. rewrite Hf, Hp. reflexivity.
+  - intros Hn.
+    assert (Hg : tg_get (c_targets c) f = None).
+    { destruct (tg_get (c_targets c) f) as [u|] eqn:E; auto.
+      apply (targets_exact tb c f u Hi) in E. destruct E as (t & Hl & Hin). exfalso. exact (Hn u t Hl Hin). }
+    split; auto. cbn [Select.filter_list]. unfold Select.filter_one. rewrite Hf, Hg. reflexivity.
+Qed.
+
 End P.
 
 (* ---------- --single ---------- *)
